@@ -688,7 +688,7 @@ func TestRelink(t *testing.T) {
 				for ci, ce := range okr[nm(i)].CallRef {
 					b, _ := ce.PrivateData.(*plrt.Script)
 					if b == nil || b != okr[b.Name] {
-						rk.Fail(t, "relink", texts, "after replacing %s (round %d): use call %d of %s is bound to %v, which is not the script of that name in the linked set", nm(k), round, ci, nm(i), b)
+						rk.Fail(t, "relink", texts, "after replacing %s (round %d): use call %d of %s is bound to a script object that is not the script of that name in the linked set (nil: %v)", nm(k), round, ci, nm(i), b == nil)
 					}
 				}
 			}
